@@ -6,6 +6,7 @@ import (
 	"fmt"
 	"os"
 	"path/filepath"
+	"regexp"
 	"sort"
 	"strings"
 	"sync"
@@ -30,8 +31,12 @@ type Spec struct {
 	Witnesses   map[string]run.Instance // known-finding id -> instance whose assertion reproduces it
 	Extra       func(w *run.World, ev *Evidence) error // non-solver side facts (SSA scans), recorded in evidence
 	Workers     int
+	Native      []NativeRun // native-only validations of the specification layer on the repo's own test positions
+	Virtual     map[string][]string // overlay-only package dir -> repo-relative source files presented there
 	SliderSummary bool // replace slider lookups by the ray-walk spec, licensed per square by re-proving the C12 lemma first
 }
+
+type NativeRun struct{ Pkg, Func string }
 
 type KnownFinding struct {
 	Property    string `json:"property"`
@@ -96,7 +101,7 @@ func Run(prop, tier string, seed int64, repoDir, verifDir string, verbose bool) 
 			activeFinding[k.ID] = k
 		}
 	}
-	w, err := run.Load(repoDir, filepath.Join(verifDir, "harness"), spec.Pkgs, spec.Tags)
+	w, err := run.LoadV(repoDir, filepath.Join(verifDir, "harness"), spec.Pkgs, spec.Tags, spec.Virtual)
 	if err != nil {
 		fmt.Println("LOAD FAILED:", err)
 		return 2
@@ -105,6 +110,43 @@ func Run(prop, tier string, seed int64, repoDir, verifDir string, verbose bool) 
 	if err := w.DumpGlobals(); err != nil {
 		fmt.Println("GLOBALS DUMP FAILED:", err)
 		return 2
+	}
+	// native validation of the specification layer against the engine on the repository's own test positions
+	var nativeNotes []string
+	nativeBad := false
+	if len(spec.Native) > 0 {
+		corpus, n, err := writeCorpus(repoDir, w.TmpDir)
+		if err != nil {
+			fmt.Println("BROKEN corpus:", err)
+			return 2
+		}
+		os.Setenv("VP_CORPUS", corpus)
+		for _, nr := range spec.Native {
+			out, _ := w.ReplayTape(nr.Pkg, nr.Func, filepath.Join(w.TmpDir, "none.json"))
+			dis := 0
+			for _, l := range strings.Split(out, "\n") {
+				if strings.HasPrefix(l, "VP-CORPUS-DISAGREE") {
+					dis++
+					if dis <= 5 {
+						fmt.Println("NOTE spec/implementation disagreement on a corpus position:", strings.TrimPrefix(l, "VP-CORPUS-DISAGREE "))
+					}
+				}
+			}
+			pos := ""
+			for _, l := range strings.Split(out, "\n") {
+				if strings.HasPrefix(l, "VP-CORPUS-POSITIONS") {
+					pos = strings.TrimSpace(strings.TrimPrefix(l, "VP-CORPUS-POSITIONS"))
+				}
+			}
+			if !strings.Contains(out, "VP-REPLAY-COMPLETED") {
+				fmt.Println("BROKEN native validation", nr.Func, "did not complete:\n", tailStr(out, 600))
+				return 2
+			}
+			if dis > 0 {
+				nativeBad = true
+			}
+			nativeNotes = append(nativeNotes, fmt.Sprintf("%s.%s: specification layer compared natively with the engine on %s positions (from %d FENs of the repo's tests and perft suite, plus one ply), %d disagreements", nr.Pkg, nr.Func, pos, n, dis))
+		}
 	}
 	// exclusion parameters
 	insts := append([]run.Instance(nil), spec.Instances...)
@@ -380,6 +422,9 @@ func Run(prop, tier string, seed int64, repoDir, verifDir string, verbose bool) 
 		ul = append(ul, strings.ReplaceAll(u, repoDir+"/", ""))
 	}
 	sort.Strings(ul)
+	if spec.Assumptions == nil {
+		spec.Assumptions = []string{}
+	}
 	ev := &Evidence{PropertyID: prop, Tier: tier, Seed: seed, Level: "model_checking", Assumptions: spec.Assumptions, Violations: nViol}
 	ev.Coverage = map[string]any{
 		"evaluations":               ob,
@@ -421,6 +466,13 @@ func Run(prop, tier string, seed int64, repoDir, verifDir string, verbose bool) 
 		}
 	}
 	ev.Coverage["known_findings_file_entries"] = kf
+	if len(nativeNotes) > 0 {
+		ev.Coverage["spec_validation_native"] = nativeNotes
+	}
+	if nativeBad && exit == 0 {
+		lines = append(lines, "BROKEN: the specification layer disagrees with the engine on corpus positions but no solver counterexample was confirmed")
+		exit = 2
+	}
 	if lemmaNote != "" {
 		ev.Coverage["slider_summary_lemmas"] = lemmaNote
 	}
@@ -516,4 +568,36 @@ func proveSliderLemmas(w *run.World, nw int) (map[string]map[int]bool, string, e
 		}
 	}
 	return lic, fmt.Sprintf("%d/128 per-square lemmas (forall occ: magic lookup == ray walk) proved on this run in %.1fs; unproved squares use the exact table encoding", n, time.Since(t0).Seconds()), nil
+}
+
+func tailStr(s string, n int) string {
+	if len(s) > n {
+		return s[len(s)-n:]
+	}
+	return s
+}
+
+var fenRe = regexp.MustCompile(`[1-8pnbrqkPNBRQK]{1,8}(/[1-8pnbrqkPNBRQK]{1,8}){7} [wb] (-|[KQkq]{1,4}) (-|[a-h][36]) \d+ \d+`)
+
+// writeCorpus collects the FEN strings of the repository's own tests and perft suite.
+func writeCorpus(repoDir, tmp string) (string, int, error) {
+	seen := map[string]bool{}
+	var all []string
+	files, _ := filepath.Glob(filepath.Join(repoDir, "*", "*_test.go"))
+	epd, _ := filepath.Glob(filepath.Join(repoDir, "debug", "*.epd"))
+	for _, f := range append(files, epd...) {
+		data, err := os.ReadFile(f)
+		if err != nil {
+			return "", 0, err
+		}
+		for _, m := range fenRe.FindAllString(string(data), -1) {
+			if !seen[m] {
+				seen[m] = true
+				all = append(all, m)
+			}
+		}
+	}
+	sort.Strings(all)
+	fn := filepath.Join(tmp, "corpus.txt")
+	return fn, len(all), os.WriteFile(fn, []byte(strings.Join(all, "\n")+"\n"), 0o644)
 }
